@@ -46,16 +46,18 @@ Theorem C01_reachable_wf : forall cinst cmulti ops,
 Proof. exact reachable_wf. Qed.
 Print Assumptions C01_reachable_wf.
 
-(* A template that is rejected leaves the tree exactly as it was ... *)
-Theorem C01_add_route_reject_unchanged : forall cinst cmulti roots tpl rid roots' e,
-  add_cur cinst cmulti roots tpl rid = (roots', IErr e) -> roots' = roots.
+(* A call that is rejected — because of the template, or because the resource's responders are of
+   the wrong kind for the router ([rok] = false: TypeError, checked before anything is touched) —
+   leaves the tree exactly as it was ... *)
+Theorem C01_add_route_reject_unchanged : forall cinst cmulti rok roots tpl rid roots' e,
+  add_cur cinst cmulti rok roots tpl rid = (roots', IErr e) -> roots' = roots.
 Proof. exact reject_unchanged. Qed.
 Print Assumptions C01_add_route_reject_unchanged.
 
 (* ... so deleting the rejected call from a history changes nothing that comes later. *)
-Theorem C01_rejected_call_invisible : forall cinst cmulti ops1 ops2 tpl rid comp e,
-  snd (add_cur cinst cmulti (tree_of cinst cmulti ops1) tpl rid) = IErr e ->
-  tree_of cinst cmulti (ops1 ++ OAdd tpl rid comp :: ops2) = tree_of cinst cmulti (ops1 ++ ops2).
+Theorem C01_rejected_call_invisible : forall cinst cmulti ops1 ops2 tpl rid comp rok e,
+  snd (add_cur cinst cmulti rok (tree_of cinst cmulti ops1) tpl rid) = IErr e ->
+  tree_of cinst cmulti (ops1 ++ OAdd tpl rid comp rok :: ops2) = tree_of cinst cmulti (ops1 ++ ops2).
 Proof. exact rejected_call_invisible. Qed.
 Print Assumptions C01_rejected_call_invisible.
 
